@@ -199,7 +199,8 @@ def clause_lookback(prog, rep, scope):
                              "%s range [%s .. %s]" % ("inclusive" if incl else "exclusive", lo, hi), "%s:%s" % (f.file, s2.get("line"))))
         for ok, what, loc in verdicts:
             if ok is None:
-                rep.violation("lookback-window-arithmetic", "MDK::process_message/past-epoch-range", what, loc)
+                # outside the decidable fragment (affine forms with min / max / saturating_sub resolved by the regime): no verdict
+                rep.note("lookback-window-arithmetic: %s at %s — clause not decided for this construction" % (what, loc))
             else:
                 rep.check(ok, "lookback-window-arithmetic", "MDK::process_message/past-epoch-range",
                           "the fallback tries exactly the L epochs current-1 .. current-L (%s), in the regime current >= L >= 1" % what,
